@@ -262,7 +262,7 @@ def finish(report, ws, meta, t0, seed):
             'mutations_applied': sens['mutations'], 'mutations_fired': sens['fired'],
             'seeded_changes_applied': sens['seeds'], 'seeded_changes_fired': sens['seeds_fired'],
             'benign_edits_applied': sens['benign'], 'benign_edits_silent': sens['silent'],
-            'stale_skipped': sens['stale'], 'missed': sens['missed'], 'false_alarms': sens['false_alarms'],
+            'stale_skipped': sens['stale'], 'missed': sens['missed'], 'documented_misses': sens.get('documented_misses', []), 'false_alarms': sens['false_alarms'],
             'variants': sens['variants'],
         }
         ev['coverage']['programs'] = 1 + sens['mutations'] + sens['seeds'] + sens['benign']
